@@ -50,7 +50,7 @@ func substr(root map[string]any, at any, args ...any) any {
 		if count < 0 {
 			return ""
 		}
-		if int64(len(s)) < start+count {
+		if int64(len(s))-start < count {
 			s = s[start:]
 		} else {
 			s = s[start : start+count]
